@@ -113,6 +113,16 @@ def run(rep, tier, seed, replay=None, proof_ok=True):
                     rep.violation({'kind': 'broken-correspondence', 'what': 'model does not reproduce the recorded defect ' + fid,
                                    'input': text}, no_input=True)
                 rep.known('%s: %s [witness: %s]' % (fid, what, text.replace('\t', '\\t')))
+        # recorded defect: recursion depth
+        deep = 'void f(%s x);' % ''.join('B%d<' % i for i in range(70)) + 'A' + '>' * 70
+        deep = 'void f(' + ''.join('B%d<' % i for i in range(70)) + 'A' + '>' * 70 + ' x);'
+        di = pc.impl_parse(deep)
+        if di[0] == 'crash:RecursionError':
+            rep.known('C01-recursion-limit: template arguments nested deeper than 54 levels (namespaces deeper than 62) are not '
+                      'parsed at all: pyparsing recurses past Python\'s default 1000-frame limit and the run dies with '
+                      'RecursionError [witness: void f(B69<...<B0<A>>...> x); with 70 levels]')
+        elif di[0] != 'ok':
+            rep.violation({'kind': 'counterexample', 'what': 'a 70-level template type is rejected with %s' % di[0], 'input': deep})
         rep.sample({'input': cases[-1][1][:400], 'tree': sexp.dumps(cases[-1][2])[:400] if cases[-1][2] else None})
     finally:
         model.close()
